@@ -421,6 +421,8 @@ impl ApiNode {
         // the clock of writes may jump back; registration times never do (C17's hypothesis)
         let mut last_reg = T0;
         let mut unexpected: Vec<String> = vec![];
+        // the hashes the protection callback reported last (the cases end with such a request)
+        let mut last_hashes: Vec<iroh_blobs::Hash> = vec![];
 
         macro_rules! pick_doc {
             ($n:expr, $h:expr) => {{
@@ -844,6 +846,7 @@ impl ApiNode {
                 Op::Hashes => {
                     let mut live: HashSet<iroh_blobs::Hash> = HashSet::new();
                     let outcome = (node.protect)(&mut live).await;
+                    last_hashes = live.iter().cloned().collect();
                     let mut hs: Vec<String> = live.iter().map(|h| hex(h.as_bytes())).collect();
                     hs.sort();
                     let out = match outcome {
@@ -887,6 +890,21 @@ impl ApiNode {
         lines.push(Line::oracle("expect no-unexpected-events", if unexpected.is_empty() { "no-unexpected-events".to_string() } else { format!("unexpected: {}", unexpected.join(" | ").replace(' ', "_")) }));
         drop(subs);
         iroh::protocol::ProtocolHandler::shutdown(&node.docs).await;
+        // C16: once the node is shut down the protected hashes cannot be read any more; the garbage
+        // collector then has to be told to abort, never that an incomplete set is complete
+        let held: HashSet<iroh_blobs::Hash> = {
+            let mut live = HashSet::new();
+            // (what the callback last reported while the node was up is in the lines above; here only the outcome counts)
+            let outcome = tokio::time::timeout(Duration::from_secs(20), (node.protect)(&mut live)).await;
+            let shown = match outcome {
+                Ok(iroh_blobs::store::ProtectOutcome::Continue) => if last_hashes.iter().all(|h| live.contains(h)) { "aborts-or-covers".to_string() } else { format!("continues-with-{}-of-{}-held-hashes", live.len(), last_hashes.len()) },
+                Ok(_) => "aborts-or-covers".to_string(),
+                Err(_) => "protection-callback-never-answered".to_string(),
+            };
+            lines.push(Line::oracle("expect aborts-or-covers", shown));
+            live
+        };
+        drop(held);
         node.endpoint.close().await;
         Ok(lines)
     }
